@@ -30,7 +30,7 @@ def gen_cases(tier, seed):
     out = []
     for i in range(n):
         s = env.seed_for(seed, ID, tier, i)
-        r = random.Random(s)
+        r = random.Random(env.seed_for(s, "descriptor"))  # independent of the stream run_case derives from the same seed
         out.append({"seed": s, "n": r.randint(1, maxcalls), "tier": tier, "break_unpack": r.random() < 0.08,
                     "cfg": {"p_cont": 0.4, "p_opq": 0.2, "p_unpack": 0.2, "p_kw": 0.3}})
     return out
